@@ -496,6 +496,9 @@ class Module(HasAccessibles):
         if not pobj.hasDatatype():
             self.errors.append(f'{pname} needs a datatype')
             return
+        if pobj.value is None and pobj.default is None and pobj.constant is not None:
+            # a constant is known from the beginning: do not report it as 'not initialized' on activate
+            pobj.default = pobj.constant
         if pobj.value is None:
             if pobj.needscfg:
                 self.errors.append(f'{pname!r} has no default value and was not given in config!')
